@@ -41,11 +41,15 @@ def _reference(mode):
 def examine(mode, fname):
     from props import models as M
     out = {}
-    for typ in ("file", "simple"):
+    for typ in ("file", "simple", "class"):
         with warnings.catch_warnings(record=True) as wl:
             warnings.simplefilter("always")
             try:
-                pt = oq.import_process_tensor(fname, typ)
+                if typ == "class":       # the public class itself, without the import function
+                    from oqupy.process_tensor import FileProcessTensor
+                    pt = FileProcessTensor(mode="read", filename=fname)
+                else:
+                    pt = oq.import_process_tensor(fname, typ)
             except BaseException as ex:  # noqa
                 out[typ] = {"verdict": "raises", "exc": type(ex).__name__}
                 continue
@@ -89,7 +93,7 @@ def examine(mode, fname):
             info["examine_exc"] = type(ex).__name__ + ": " + str(ex)[:80]
         finally:
             try:
-                if typ == "file":
+                if typ in ("file", "class"):
                     pt._f.close()
             except Exception:  # noqa
                 pass
